@@ -114,6 +114,16 @@ type World struct {
 	SortAbsGot     []model.Pair
 	Skipped        bool // the last operation was skipped because of the list-length cap
 	spUsed         bool // a parameter list has been obtained from U (so obtaining it again is a pure read)
+	// Witnesses: in the list explorers (MLCap > 0) the URL a Clone was taken from stays alive, frozen, together
+	// with what its query and list were at that moment; it must keep describing that same query whatever happens
+	// to the clone afterwards.
+	Witnesses []*Witness
+}
+
+type Witness struct {
+	U     *url.Url
+	Query string
+	ML    []model.Pair
 }
 
 // A start "base\x1eref" is a URL parsed with a base (url.ParseRef(base, ref)).
@@ -237,6 +247,12 @@ func (w *World) Apply(o Op) {
 				w.M = nil
 			}
 		case o.Kind == "clone":
+			if w.MLCap > 0 {
+				w.Witnesses = append(w.Witnesses, &Witness{U: w.U, Query: w.U.Query(), ML: append([]model.Pair(nil), w.ML...)})
+				if len(w.Witnesses) > 2 {
+					w.Witnesses = w.Witnesses[1:]
+				}
+			}
 			w.U = w.U.Clone()
 			w.Handles = nil
 			if w.M != nil {
@@ -357,6 +373,9 @@ func (w *World) Key() string {
 	for _, h := range w.Handles {
 		roots = append(roots, h)
 	}
+	for _, wt := range w.Witnesses {
+		roots = append(roots, wt.U)
+	}
 	k := keySnap.Take(roots...)
 	if w.M == nil {
 		k += "|nomodel"
@@ -383,6 +402,9 @@ var StartURLs = []string{
 	"ftp://u@h:2121/",
 	"http://h/C|/x",
 	"foo://:pw@h/p",
+	// the only record shape with a completely EMPTY path list: non-special, authority, nothing after it
+	"foo://h?k=v#f",
+	"foo://",
 	// URLs parsed with a base (relative, file and no-scheme states copy parts of the base)
 	"http://h:443/a/b\x1ec",
 	"https://u:p@h:80/a/\x1e?q",
